@@ -116,11 +116,26 @@ struct Builder<S: Storage> {
     /// Multiple scans on the same view will share the same executor.
     views: HashMap<TableRefId, StreamSubscriber>,
     metrics: Metrics,
+    /// Set once the whole executor tree is built. The executor tasks wait for it: a task that
+    /// ran ahead (on another worker thread) would broadcast its first items before every
+    /// consumer of a shared executor (a view referenced twice) has subscribed, and a late
+    /// subscriber never sees what was sent before it.
+    start: Arc<tokio::sync::watch::Sender<bool>>,
 }
 
 impl<S: Storage> Builder<S> {
     /// Create a new executor builder.
     fn new(optimizer: Optimizer, storage: Arc<S>, plan: &RecExpr) -> Self {
+        let start = Arc::new(tokio::sync::watch::channel(false).0);
+        Self::new_with_start(optimizer, storage, plan, start)
+    }
+
+    fn new_with_start(
+        optimizer: Optimizer,
+        storage: Arc<S>,
+        plan: &RecExpr,
+        start: Arc<tokio::sync::watch::Sender<bool>>,
+    ) -> Self {
         let mut egraph = egg::EGraph::new(TypeSchemaAnalysis {
             catalog: optimizer.catalog().clone(),
         });
@@ -134,7 +149,8 @@ impl<S: Storage> Builder<S> {
                 && let Some(table) = optimizer.catalog().get_table(tid)
                 && let Some(query) = table.query()
             {
-                let builder = Self::new(optimizer.clone(), storage.clone(), query);
+                let builder =
+                    Self::new_with_start(optimizer.clone(), storage.clone(), query, start.clone());
                 let subscriber = builder.build_subscriber();
                 views.insert(*tid, subscriber);
             }
@@ -147,6 +163,7 @@ impl<S: Storage> Builder<S> {
             root,
             views,
             metrics: Metrics::default(),
+            start,
         }
     }
 
@@ -201,7 +218,10 @@ impl<S: Storage> Builder<S> {
 
     /// Builds the executor.
     fn build(mut self) -> BoxedExecutor {
-        self.build_id(self.root)
+        let root = self.build_id(self.root);
+        // every subscription exists now: let the executor tasks run
+        self.start.send_replace(true);
+        root
     }
 
     /// Builds the executor and returns its subscriber.
@@ -551,10 +571,15 @@ impl<S: Storage> Builder<S> {
         let tx = PanicGuard(tx);
         #[cfg(risinglight_verif)]
         let verif_name = format!("{id}.{name}");
+        let mut start = self.start.subscribe();
         let handle = tokio::task::Builder::default()
             .name(&format!("{id}.{name}"))
             .spawn(
                 async move {
+                    if start.wait_for(|started| *started).await.is_err() {
+                        // the statement was abandoned before it started
+                        return;
+                    }
                     #[cfg(risinglight_verif)]
                     let mut verif_idx = 0usize;
                     while let Some(item) = stream.next().await {
